@@ -249,6 +249,12 @@ func c03Run(r *core.Run) {
 	}
 	now = s.Node.Now()
 	enc := world.Present(xml, t.Bool("c03.compress"), 6)
+	switch t.Int(6, "c03.ambient") {
+	case 1:
+		s.NeighbourNoise(enc)
+	case 2:
+		s.WarmUpThenReconfigure(enc)
+	}
 	useRetrieve := t.Bool("c03.retrieve")
 	var out world.Outcome
 	var got world.NResponse
